@@ -294,9 +294,16 @@ def c03(ctx: Ctx) -> None:
               construct=construct_key('BUFFER.daemon', 'round set shrinks', sorted({m for _, _, m in bad}), len(binds), bool(in_round)))
     # S3
     for c in r.callfunc:
-        ee = [e for e in G.succ[c.id] if e.label == 'exc' and carries_exception(e.classes)]
+        # a failure of the function is an Exception - or a CancelledError of something it awaited
+        def failure(cl) -> bool:
+            return carries_exception(cl) or bool({'CancelledError', 'BaseException'} & set(cl or ()))
+
+        def own_cancel_guard(e: Edge) -> bool:
+            t = e.src.meta.get('test') if e.src.kind == 'branch' else None
+            return t is not None and any(isinstance(x, ast.Attribute) and x.attr == 'cancelling' for x in ast.walk(t))
+        ee = [e for e in G.succ[c.id] if e.label == 'exc' and failure(e.classes)]
         w_esc = must_pass(G, [], [G.raise_exit, G.exit] + binds, [r.round_branch], start_edges=ee,
-                          edge_ok=lambda e: e.label != 'exc' or carries_exception(e.classes))
+                          edge_ok=lambda e: (e.label != 'exc' or failure(e.classes)) and not own_cancel_guard(e))
         ws = find_path(G, [], r.set_, start_edges=ee, edge_ok=lambda e: id(e) not in ok_edges)
         ctx.check('C03-S3', f'Exception edge of {norm(c.ast)} is contained and leads back to the round-loop test', G.loc(c),
                   bool(ee) and w_esc is None and ws is None, 'caught, logged, no flag set, another collection cycle with the same set',
@@ -702,6 +709,17 @@ def c07(ctx: Ctx) -> None:
         ctx.check('C07-W8', f'hand-off: {[norm(h.ast) for h in hand]}', f'{FILE}:{ep.lineno}', len(hand) == 1 and not other,
                   'enters the owning loop\'s ready queue', 'the hand-off takes a detour (timer/executor/non-thread-safe call): a later join can overtake it',
                   construct=construct_key('BUFFER.put', 'hand-off'))
+    for ep_ in r.entry_points:
+        ge = _entry_graph(r, ep_)
+        hand = [n for n in ge.nodes if n.kind == 'call' and isinstance(n.ast.func, ast.Attribute) and n.ast.func.attr.startswith('call_')]
+        clr = [n for n in ge.nodes if is_meth(ge, n, r.FLAG, 'clear')]
+        if clr and hand:
+            w = must_pass(ge, [ge.entry], hand, clr)
+            ctx.check('C07-W8', f'{ep_.name}: the flag is cleared before the hand-off is scheduled', f'{FILE}:{ep_.lineno}', w is None,
+                      'a submission is visible as "pending" before the loop can process it',
+                      'the hand-off is scheduled first: the loop can deliver the argument and set the flag before the late clear(), '
+                      'which then leaves the flag cleared with nothing pending - wait() never returns',
+                      witness=render(ge, w), construct=construct_key('BUFFER.put', 'hand-off before clear'))
     jn = joins[0] if joins else None
     if jn is not None:
         v = resolve(gw, jn, jn.ast.value)
@@ -883,6 +901,9 @@ def c08(ctx: Ctx) -> None:
         ctx.check('C08-D4', 'a successful timed get returns to the loop head (re-drain, re-arm), not to the function', G.loc(tg), w is None,
                   'a burst is one call', 'an arrival during the quiet period triggers the function', witness=render(G, w),
                   construct=construct_key('BUFFER.daemon', 'arrival triggers run'))
+    # D5: the single daemon survives a failing call (otherwise no later burst is ever delivered)
+    ctx.rule('C08-D5', 'a failure of the wrapped call (Exception or CancelledError of something it awaited) never ends the daemon (= C03-S3)', 2)
+    ctx.adopt(c03, {'C03-S3'}, 'C08-D5', 'the one background task dies: nothing submitted later is ever delivered')
     for d in r.drain_calls:
         ne = [e for e in G.succ[d.id] if e.label != 'exc']
 
